@@ -1,7 +1,7 @@
 SPECIFICATION Spec
 CONSTANTS
   NF = 2
-  MaxCtx = 4
+  MaxCtx = 3
   WideClob = TRUE
   Emit = TRUE
 INVARIANT Inv
